@@ -135,7 +135,9 @@ pub struct CfgOpts {
 /// Full config around three layer cells for keys a b c (+ helper blocks).
 pub fn cfg3(a1: &str, a2: &str, a3: &str, o: &CfgOpts) -> String {
     let mut s = String::new();
-    s += &format!("(defcfg {})\n", o.defcfg);
+    // sequence-timeout defaults to 1000 ms; scaled down like every other time constant
+    let seqt = if o.defcfg.contains("sequence-timeout") { "" } else { " sequence-timeout 6" };
+    s += &format!("(defcfg {}{})\n", o.defcfg, seqt);
     s += "(defsrc a b c)\n";
     s += "(defvirtualkeys v1 x v2 (layer-while-held nav) v3 (macro y z))\n";
     if a1.contains("(chord grp ") || a2.contains("(chord grp ") || a3.contains("(chord grp ") || o.extra.contains("(chord grp ") {
